@@ -18,7 +18,7 @@ MUST_REACH = ["contended", "cancelled-waiter", "wouldblock", "total-raised-with-
 def units(tier):
     quick = tier == "quick"
     us = []
-    B = 100 if quick else 1500
+    B = 240 if quick else 1500
     T = 1 if quick else 2
 
     def add(kind, name, **p):
